@@ -454,12 +454,13 @@ HOST_ZONES_WEST = [-19800, 12600, -45900, 1800, -50400, 39600, -3600, -60,
                    34200, -20700]
 
 
-def posix_tz(west):
+def posix_tz(west, name="XST"):
     """POSIX TZ string of a fixed zone `west` seconds west of UTC (the sign
-    in TZ is that of `time.timezone`: XST-5:30 is UTC+05:30)."""
+    in TZ is that of `time.timezone`: XST-5:30 is UTC+05:30; the name is
+    free: UTC-3 is a zone called 'UTC' three hours east of Greenwich)."""
     a = abs(west)
-    return "XST%s%d:%02d" % ("-" if west < 0 else "+", a // 3600,
-                             (a % 3600) // 60)
+    return "%s%s%d:%02d" % (name, "-" if west < 0 else "+", a // 3600,
+                            (a % 3600) // 60)
 
 
 def run_in_host_zone(prop, trace):
